@@ -128,8 +128,14 @@ func (in *inliner) eligible(call *ast.CallExpr, stack []*types.Func, depth int) 
 		}
 		return ok
 	})
-	if !ok || nodes > inlineMaxNodes {
+	if !ok {
 		return nil
+	}
+	if nodes > inlineMaxNodes {
+		// a large helper is still the body of its caller when nothing else calls it
+		if nodes > 10*inlineMaxNodes || in.callSites(callee) != 1 {
+			return nil
+		}
 	}
 	if callee.Decl.Type.Params != nil {
 		n := 0
@@ -825,4 +831,39 @@ func (c *cloner) value(v reflect.Value) reflect.Value {
 		return out
 	}
 	return v
+}
+
+// callSites counts the references to a function in its package (calls and
+// function values), cached per program.
+func (in *inliner) callSites(callee *Func) int {
+	p := in.prog
+	p.mu.Lock()
+	if p.refCount == nil {
+		p.refCount = map[*types.Func]int{}
+		p.refDone = map[string]bool{}
+	}
+	done := p.refDone[callee.Pkg.PkgPath]
+	p.mu.Unlock()
+	if !done {
+		counts := map[*types.Func]int{}
+		for _, f := range callee.Pkg.Syntax {
+			ast.Inspect(f, func(n ast.Node) bool {
+				if id, ok := n.(*ast.Ident); ok {
+					if tf, ok := callee.Pkg.TypesInfo.Uses[id].(*types.Func); ok {
+						counts[tf.Origin()]++
+					}
+				}
+				return true
+			})
+		}
+		p.mu.Lock()
+		for k, v := range counts {
+			p.refCount[k] = v
+		}
+		p.refDone[callee.Pkg.PkgPath] = true
+		p.mu.Unlock()
+	}
+	p.mu.Lock()
+	defer p.mu.Unlock()
+	return p.refCount[callee.Obj]
 }
